@@ -251,8 +251,74 @@ func progs(k1, k2 interface{}) []prog {
 	return ps
 }
 
+// observedRatio: how many try-acquires (already-ended context) of read tokens a fresh container admits on one key
+func observedRatio(m semap.SemMapper, limit int) int {
+	var hs []*semap.Weighted
+	n := 0
+	for n < limit {
+		h, err := m.AcquireRead(vctx.Canceled(), "probe")
+		if err != nil {
+			break
+		}
+		hs = append(hs, h)
+		n++
+	}
+	for _, h := range hs {
+		m.ReleaseRead("probe", h)
+	}
+	return n
+}
+
+// constructors: every container gets the ratio IT was built with, whatever was built before it
+// (options must not leak between instances); all ordered pairs and triples of constructions.
+func constructorScenario() *mc.Scenario {
+	type build struct {
+		name  string
+		ratio int // 0 = default
+		mk    func() semap.SemMapper
+	}
+	var builds []build
+	for _, r := range []int{0, 1, 2, 12} {
+		r := r
+		opt := func() []semap.Option {
+			if r == 0 {
+				return nil
+			}
+			return []semap.Option{semap.WithRwRatio(r)}
+		}
+		builds = append(builds,
+			build{fmt.Sprintf("NewSemMap(ratio=%d)", r), r, func() semap.SemMapper { return semap.NewSemMap(opt()...) }},
+			build{fmt.Sprintf("NewWideSemMap(ratio=%d,shards=2)", r), r, func() semap.SemMapper { return semap.NewWideSemMap(append(opt(), semap.WithPrime(2))...) }},
+			build{fmt.Sprintf("NewWideXHashSemMap(ratio=%d)", r), r, func() semap.SemMapper { return semap.NewWideXHashSemMap(append(opt(), semap.WithPrime(3))...) }})
+	}
+	return &mc.Scenario{Name: "constructors/options-do-not-leak-between-containers", PB: [2]int{0, 0}, Horizon: 2000000, NoStateCache: true, ProcessState: true,
+		Main: func(w *mc.World) {
+			want := func(b build) int {
+				if b.ratio == 0 {
+					return semap.DefaultRWRatio
+				}
+				return b.ratio
+			}
+			n := 0
+			for _, a := range builds {
+				for _, b := range builds {
+					ma, mb := a.mk(), b.mk()
+					if got := observedRatio(mb, 40); got != want(b) {
+						w.Failf("%s built after %s admits %d concurrent readers on one key, configured %d", b.name, a.name, got, want(b))
+					}
+					if got := observedRatio(ma, 40); got != want(a) {
+						w.Failf("%s admits %d concurrent readers on one key after %s was built, configured %d", a.name, got, b.name, want(a))
+					}
+					n++
+				}
+			}
+			w.Obs("pairs=%d", n)
+		}}
+}
+
 func scenarios() []*mc.Scenario {
 	var scs []*mc.Scenario
+	scs = append(scs, constructorScenario())
 	for _, mm := range maps() {
 		// keys: integers for modulo routing (1 and 7 collide for 1,2,3 shards; 1 and 2 differ for 2 and 3 shards), strings for xxhash
 		type kp struct{ a, b interface{} }
